@@ -83,6 +83,7 @@ package schema
 //@   modifies l.pos, l.width
 //@   ensures wf(l)
 //@   ensures l.pos >= old(l.pos)
+//@   ensures result ==> l.pos > old(l.pos)
 
 //@ func (*lexer).scanCommentBegin
 //@   props C12
@@ -90,7 +91,7 @@ package schema
 //@   modifies l.pos
 //@   ensures wf(l)
 //@   ensures l.pos >= old(l.pos)
-//@   ensures result0 ==> (result1 == lexLineComment || result1 == lexBlockComment)
+//@   ensures result0 ==> (result1 == lexLineComment || result1 == lexBlockComment) && l.pos > old(l.pos)
 //@   ensures !result0 ==> l.pos == old(l.pos)
 
 // ---- the state-function protocol -------------------------------------------
@@ -103,11 +104,21 @@ package schema
 
 //@ ghost rank(int) int
 //@ axiom rank_nonneg: forall f int :: rank(f) >= 0
+//@ axiom rank_max: forall f int :: rank(f) <= 2
 //@ axiom rank_nil: rank(nil) == 0
 //@ axiom rank_lexCode: rank(lexCode) == 2
 //@ axiom rank_lexLineComment: rank(lexLineComment) == 1
 //@ axiom rank_lexBlockComment: rank(lexBlockComment) == 1
 //@ axiom rank_lexStringLiteral: rank(lexStringLiteral) == 1
+// progressing(f): a rank-1 state that itself consumes input or ends the scan before it sends
+//@ ghost progressing(int) bool
+//@ axiom progressing_lexStringLiteral: progressing(lexStringLiteral)
+//@ axiom progressing_not_comments: !progressing(lexLineComment) && !progressing(lexBlockComment)
+// ASSUMED (initialised once, never reassigned): multi-rune tokens are not empty
+//@ globalinv schema.multiRuneTokens: forall k string :: has(val, k) ==> len(k) >= 1
+// lm: the lexer's progress measure - bytes left, plus one while the scan has not ended
+//@ spec lm(l *lexer) int = 2 * (len(l.input) - l.pos) + (l.state != nil ? 1 : 0)
+//@ spec isbroken(it item) bool = it.Typ == itemError && it.Val == "broken state"
 
 //@ func functype::schema.stateFn
 //@   requires wf(arg0) && pending(arg0) == 0
@@ -118,6 +129,9 @@ package schema
 //@   ensures sent(arg0.items) == old(sent(arg0.items)) ==> result != nil && rank(result) < rank(self)
 //@   ensures result != nil ==> rank(result) >= 1
 //@   ensures arg0.pos >= old(arg0.pos)
+//@   ensures[C12] progress-when-sending: sent(arg0.items) == old(sent(arg0.items)) + 1 && !(rank(self) == 1 && !progressing(self)) ==> arg0.pos > old(arg0.pos) || result == nil
+//@   ensures[C12] sender-hands-over-to-top-level: sent(arg0.items) == old(sent(arg0.items)) + 1 ==> rank(result) != 1
+//@   ensures[C12] progress-when-silent: sent(arg0.items) == old(sent(arg0.items)) ==> arg0.pos > old(arg0.pos) || progressing(result)
 
 //@ func lexCode
 //@   props C12
@@ -146,22 +160,28 @@ package schema
 //@ func (*lexer).nextItem
 //@   props C12
 //@   opt single-goroutine-chan
-//@   requires wf(l) && pending(l) == 0
+//@   requires wf(l) && pending(l) == 0 && rank(l.state) != 1
 //@   modifies l.pos, l.width, l.start, l.state, chanstate(l.items)
-//@   ensures wf(l) && pending(l) == 0
+//@   ensures wf(l) && pending(l) == 0 && rank(l.state) != 1
 //@   ensures result.Start >= 0 && result.Start <= result.End
 //@   ensures l.pos >= old(l.pos)
+//@   ensures[C12] progress-or-broken: lm(l) < old(lm(l)) || (isbroken(result) && lm(l) == old(lm(l)))
 //@   loop 1 invariant wf(l) && 0 <= pending(l) && pending(l) <= 1 && l.pos >= old(l.pos)
 //@   loop 1 invariant pending(l) == 0 ==> rank(l.state) >= 0
+//@   loop 1 invariant pending(l) == 0 ==> (l.pos == old(l.pos) && l.state == old(l.state)) || l.pos > old(l.pos) || (progressing(l.state) && rank(l.state) == 1 && old(l.state) != nil)
+//@   loop 1 invariant pending(l) == 1 ==> rank(l.state) != 1 && (l.pos > old(l.pos) || (l.state == nil && old(l.state) != nil))
 //@   loop 1 decreases pending(l) == 0 ? rank(l.state) + 1 : 0
 
 //@ func (*lexer).nextNonCommentItem
 //@   props C12
-//@   requires wf(l) && pending(l) == 0
+//@   requires wf(l) && pending(l) == 0 && rank(l.state) != 1
 //@   modifies l.pos, l.width, l.start, l.state, chanstate(l.items)
-//@   ensures wf(l) && pending(l) == 0
+//@   ensures wf(l) && pending(l) == 0 && rank(l.state) != 1
 //@   ensures item.Start >= 0 && item.Start <= item.End
-//@   loop 1 invariant wf(l) && pending(l) == 0 && item.Start >= 0 && item.Start <= item.End
+//@   ensures[C12] progress-or-broken: lm(l) < old(lm(l)) || (isbroken(item) && lm(l) == old(lm(l)))
+//@   loop 1 invariant wf(l) && pending(l) == 0 && rank(l.state) != 1 && item.Start >= 0 && item.Start <= item.End
+//@   loop 1 invariant lm(l) < old(lm(l)) || (isbroken(item) && lm(l) == old(lm(l)))
+//@   loop 1 decreases item.Typ == itemComment ? lm(l) + 1 : 0
 
 // ---- parse errors: positions and rendering (C12)
 //@ spec wferr(e *ParseError) bool = e != nil && e.p != nil && e.p.lexer != nil
